@@ -6,7 +6,9 @@
    Property theorems only; each is closed by a lemma from the proof files. *)
 From Coq Require Import String.
 From Coq Require Import List NArith Bool Arith Lia.
-From VF Require Import Conc.Machine Conc.Lin Conc.MachineProofs Conc.LinProofs Conc.Theorems Conc.Instances
+From VF Require Import PyVal.Val Merge.Merge Yaml.Target Yaml.Cache Yaml.Validity Yaml.HistoryProofs.
+From VF Require Import Conc.YamlReal.
+From VF Require Import Conc.Machine Conc.Lin Conc.MachineProofs Conc.LinProofs Conc.Theorems Conc.RealTime Conc.Instances
   Conc.InstanceProofs C19.Entry C19.Proofs.
 Import ListNotations.
 Local Open Scope nat_scope.
@@ -30,6 +32,44 @@ Theorem C19_lock_linearizable :
        search O W LS Call Res E begin prog ret env res_eqb fuel s0 (LinProofs.envs_of E sch) (results O W LS Call Res s) = true).
 Proof. exact lock_linearizable. Qed.
 Print Assumptions C19_lock_linearizable.
+
+(* ---- the real-time variant: every call carries the calls that had RETURNED when it was INVOKED; the
+   instrumented machine (RealTime.v) lets a call's first access check that they are complete and its last
+   access count the call as complete; a call placed before a predecessor yields None.  The instrumented
+   programs are again single critical sections, so for any base component, threads, calls, stamps and
+   schedule: the results of a complete run are accepted by the search over the instrumented machine, i.e.
+   by a sequential witness order in which no call precedes a call that had returned before its invocation
+   (the lock-acquisition order is such an order whenever the recorded invocation/response events bracket
+   the critical sections: then no result is None). ---- *)
+Theorem C19_lock_linearizable_real_time :
+  forall (O W LS Call Res E : Type) (begin : Call -> LS) (body : Call -> list (LS -> O -> W -> LS * O))
+         (ret : LS -> Res) (env : E -> W -> W) (res_eqb : Res -> Res -> bool),
+  (forall r, res_eqb r r = true) ->
+  forall ls0 o w (calls : list (list (rcall Call))) (sch : list (choice E)),
+    let s0 := init (robj O) W (rls LS) (rcall Call) (option Res) ls0 o w calls in
+    let s := run (robj O) W (rls LS) (rcall Call) (option Res) E (rbegin _ _ begin) (rprog _ _ _ _ body) (rret _ _ ret) env s0 sch in
+    (forall i j s', tstep _ _ _ _ _ (rbegin _ _ begin) (rprog _ _ _ _ body) (rret _ _ ret) s i = Some s' -> lock s = Some j -> i = j) /\
+    (all_done _ _ _ _ _ s = false -> exists i, tstep _ _ _ _ _ (rbegin _ _ begin) (rprog _ _ _ _ body) (rret _ _ ret) s i <> None) /\
+    (all_done _ _ _ _ _ s = true -> forall fuel, length sch < fuel ->
+       search (robj O) W (rls LS) (rcall Call) (option Res) E (rbegin _ _ begin) (rprog _ _ _ _ body) (rret _ _ ret) env
+              (opt_eqb res_eqb) fuel s0 (LinProofs.envs_of E sch) (results _ _ _ _ _ s) = true).
+Proof.
+  intros O W LS Call Res E begin body ret env res_eqb Hrefl ls0 o w calls sch.
+  exact (lock_linearizable (robj O) W (rls LS) (rcall Call) (option Res) E (rbegin _ _ begin) (rprog _ _ _ _ body)
+           (rret _ _ ret) env (opt_eqb res_eqb) (opt_eqb_refl res_eqb Hrefl) (rbody _ _ _ _ body) (rprog_cs _ _ _ _ body)
+           ls0 o w calls sch).
+Qed.
+Print Assumptions C19_lock_linearizable_real_time.
+
+(* what the instrumentation rejects: thread 1's get(1) was invoked after thread 0's set(1,1) had returned
+   and saw nothing -- sequentially consistent (get before set), but not in real-time order *)
+Example C19_real_time_is_stronger :
+  let calls := [[CSet 1 1]; [CGet 1]] in
+  let st : stamps := [[ [] ]; [ [(0, 0)] ]] in
+  let sch : list (choice unit) := [T 0; T 0; T 0; T 1; T 1; T 1] in
+  c_search 2 calls sch [[ [5] ]; [ [0] ]] = true /\ cr_search 2 calls st sch [[ [5] ]; [ [0] ]] = false /\
+  cr_search 2 calls st sch [[ [5] ]; [ [1; 1] ]] = true.
+Proof. vm_compute. repeat split; reflexivity. Qed.
 
 (* ---- instances: SynchronizedCache(LRUCache), TextFileSource, DataStore are single critical sections ---- *)
 Theorem C19_instances_are_critical_sections :
@@ -62,12 +102,65 @@ Print Assumptions C19_text_call_spec.
    may change); set-item (locked) -- any threads, calls, schedule, file changes: every cache item is a
    correct result for the versions its call read, every call returns get_data_spec of the versions IT
    read, and (fe12c42) one version per file. ---- *)
-Theorem C19_yaml_concurrent : forall table tree once w calls sch,
+Theorem C19_yaml_concurrent : forall table tree once w0 calls sch,
   let s := run (option yitem) (list nat) yls unit R nat yls_begin (yaml_prog table tree once) yret bump
-               (init (option yitem) (list nat) yls unit R (yls_begin tt) None w calls) sch in
-  cache_valid table (obj s) /\ forall t, In t (threads s) -> Forall (Ry table once) (res t).
+               (init (option yitem) (list nat) yls unit R (yls_begin tt) None w0 calls) sch in
+  cache_valid table (obj s) /\
+  forall t, In t (threads s) -> Forall (Ry table tree once (in_run w0 sch)) (res t).
 Proof. exact yaml_concurrent. Qed.
 Print Assumptions C19_yaml_concurrent.
+
+(* hence, with at most one file change during the run, every answer of the fixed code is get_data_spec
+   of a file state that was present during the run: a sequential answer *)
+Theorem C19_yaml_answers_are_sequential : forall table tree w0 calls sch,
+  length (yenvs sch) <= 1 ->
+  let s := run (option yitem) (list nat) yls unit R nat yls_begin (yaml_prog table tree true) yret bump
+               (init (option yitem) (list nat) yls unit R (yls_begin tt) None w0 calls) sch in
+  forall t, In t (threads s) -> forall r, In r (res t) ->
+    In r (map (fun w => flat (yspec table (snapshot_of tree w))) (worlds_of w0 (yenvs sch))).
+Proof. exact yaml_results_in_specs. Qed.
+Print Assumptions C19_yaml_answers_are_sequential.
+
+(* ---- the same over the REAL compile_data model of C12 (Yaml/Target.v) and any cache honouring C12's
+   three-clause contract: threads of get_data calls, each call = get-item (locked); compile_data on the
+   snapshot the call assembled (unlocked); set-item (locked).  For any faithful calls with ANY snapshots
+   and any schedule: the cache stays content-valid in C12's state-independent sense and every call
+   returns spec_full_of_call of the snapshot it read.  Premises = those of C12 (hash injective and free of
+   "|" and "+", well-formed yaml values, current variants). ---- *)
+Theorem C19_yaml_concurrent_real : forall V C H yload mo,
+  tag_after V = true -> rerender V = false ->
+  (forall text v, yload text = Ok v -> wf v = true) ->
+  (forall a b, H a = H b -> a = b) -> (forall s, ~ In BAR (H s)) -> (forall s, ~ In PLUS (H s)) -> (forall s, H s <> []) ->
+  forall (S : Type) (cget : str -> S -> option item * S) (cset : str -> item -> S -> S) (stored : S -> str -> item -> Prop),
+  (forall k st it st', cget k st = (Some it, st') -> stored st k it) ->
+  (forall k st o st' k' it, cget k st = (o, st') -> stored st' k' it -> stored st k' it) ->
+  (forall k v st k' it, stored (cset k v st) k' it -> (k' = k /\ it = v) \/ stored st k' it) ->
+  forall st0 (calls : list (list call)) (sch : list (choice unit)),
+  HistoryProofs.cache_valid V C H yload mo S stored st0 -> Forall (Forall (faithful mo)) calls ->
+  let s := run S unit YamlReal.rls call (call * Val.res (dict * str)) unit r_begin (r_prog V C H yload S cget cset)
+               r_ret r_env (init S unit YamlReal.rls call (call * Val.res (dict * str)) (r_begin k0) st0 tt calls) sch in
+  HistoryProofs.cache_valid V C H yload mo S stored (obj s) /\
+  forall t, In t (threads s) -> Forall (fun r => snd r = spec_full_of_call V C H yload (fst r)) (Machine.res t).
+Proof. exact yaml_real_concurrent. Qed.
+Print Assumptions C19_yaml_concurrent_real.
+
+(* the LRU cache of YamlTargetSource (any size; 0 = NullCache) honours the contract (C12_lru_honours_contract) *)
+Theorem C19_yaml_concurrent_real_lru : forall V C H yload mo,
+  tag_after V = true -> rerender V = false ->
+  (forall text v, yload text = Ok v -> wf v = true) ->
+  (forall a b, H a = H b -> a = b) -> (forall s, ~ In BAR (H s)) -> (forall s, ~ In PLUS (H s)) -> (forall s, H s <> []) ->
+  forall capacity (calls : list (list call)) (sch : list (choice unit)), Forall (Forall (faithful mo)) calls ->
+  let s := run (Cache.lru item) unit YamlReal.rls call (call * Val.res (dict * str)) unit r_begin
+               (r_prog V C H yload (Cache.lru item) (Cache.cache_get capacity) (Cache.lru_set capacity)) r_ret r_env
+               (init (Cache.lru item) unit YamlReal.rls call (call * Val.res (dict * str)) (r_begin k0) [] tt calls) sch in
+  forall t, In t (threads s) -> Forall (fun r => snd r = spec_full_of_call V C H yload (fst r)) (Machine.res t).
+Proof.
+  intros V C H yload mo Ht Hr Hy Hi Hb Hp Hn capacity calls sch Hf s.
+  apply (yaml_real_concurrent V C H yload mo Ht Hr Hy Hi Hb Hp Hn (Cache.lru item) (Cache.cache_get capacity) (Cache.lru_set capacity) lru_stored
+           (lru_get_sound' capacity) (lru_get_keeps' capacity) (lru_set_keeps' capacity) [] calls sch); [|exact Hf].
+  intros k it [].
+Qed.
+Print Assumptions C19_yaml_concurrent_real_lru.
 
 (* with a single file change, versions that agree per file and stem from the state before or after the
    change form exactly one of the two states: the call's answer is a sequential answer *)
@@ -118,12 +211,13 @@ Proof. vm_compute. split; reflexivity. Qed.
 (* non-vacuity: concrete valid cases *)
 Example C19_nonvacuous_text :
   let c := Text [[(1, 10); (2, 20)]; [(1, 11)]] [] true [[TGet 1; TGet 2]; [TFind 20]; [TGetAt 1 1]]
+                [[ []; [] ]; [ [] ]; [ [(0, 1); (1, 0)] ]]
                 [T 0; T 1; T 0; Ev tt; T 0; T 0; T 1; T 1; T 1; T 1; T 0; T 0; T 0; T 0; T 2; T 2; T 2; T 2] in
   valid c /\ run_model c = [[ [1; 11]; [0] ]; [ [0] ]; [ [1; 11] ]].
-Proof. vm_compute. split; reflexivity. Qed.
+Proof. vm_compute. repeat split; reflexivity. Qed.
 
 Example C19_nonvacuous_cache :
-  let c := Cache 2 [[CSet 1 1; CGet 1]; [CSet 2 2; CSet 3 3; CLen]]
+  let c := Cache 2 [[CSet 1 1; CGet 1]; [CSet 2 2; CSet 3 3; CLen]] [[ []; [] ]; [ []; []; [(0, 1)] ]]
                  [T 0; T 1; T 0; T 0; T 1; T 1; T 1; T 1; T 1; T 1; T 0; T 0; T 0; T 1; T 1; T 1] in
   valid c /\ run_model c = [[ [5]; [0] ]; [ [5]; [5]; [3; 2] ]].
-Proof. vm_compute. split; reflexivity. Qed.
+Proof. vm_compute. repeat split; reflexivity. Qed.
